@@ -138,6 +138,9 @@ PROVED_IN = {
     "messages::HtlcFailReason::encode": "Kani harnesses encode_policy_exact / encode_constants_exact (full input domain), run by ./check C12",
     "messages::TrampolineRoutingPolicy::fee_sufficient": "unit fee",
     "htlc_manager::PaymentState::resolve": "unit paystate",
+    "htlc_manager::PaymentState::new": "unit paystate (same clause text, specs/paystate.rs)",
+    "payment_provider::PayPaymentProvider::new": "unit provider (same clause text, specs/provider.rs)",
+    "htlc_manager::payment_lifecycle": "unit lifecycle (proved against specs/lifecycle.rs; in unit handle it has NO contract: handle_htlc only hands it to tokio::spawn)",
     "htlc_manager::PaymentState::add_htlc": "unit paystate",
     "htlc_manager::PaymentState::fail": "unit paystate",
     "tlv::ProtoBuf::get_compact_size": "unit tlv_dec",
